@@ -206,6 +206,30 @@ fn control_family() -> Vec<(String, Vec<u8>)> {
         v.push((format!("SLOWLOG GET {}", e), c(&["UMCTL", "SLOWLOG", "GET", e])));
         v.push((format!("BLPOP timeout {}", e), c(&["BLPOP", "k1", e])));
     }
+    // client-settable configuration with extreme values, each followed (in the same pipeline) by a
+    // request that exercises the setting, a slow-log dump, and the reset of the setting
+    let long_key = format!("{}{}", "k".repeat(99), "\u{e9}".repeat(30));
+    for (field, default) in [("slowlog_log_slower_than", "-1"), ("slowlog_sample_rate", "1")] {
+        for val in ["0", "1", "-1", "-9223372036854775808", "9223372036854775807", "9223372036854775808", "18446744073709551615", "18446744073709551616", "abc", "", "1e3", " 1"] {
+            let mut b = c(&["CONFIG", "SET", field, val]);
+            b.extend(c(&["GET", &long_key]));
+            b.extend(c(&["SET", &long_key, &long_key]));
+            b.extend(c(&["UMCTL", "SLOWLOG", "GET", "18446744073709551615"]));
+            b.extend(c(&["UMCTL", "SLOWLOG", "GET"]));
+            b.extend(c(&["UMCTL", "SLOWLOG", "RESET"]));
+            b.extend(c(&["CONFIG", "GET", field]));
+            b.extend(c(&["CONFIG", "SET", field, default]));
+            v.push((format!("CONFIG SET {} {:?} + traffic + SLOWLOG GET/RESET", field, val), b));
+        }
+    }
+    for field in ["address", "announce_address", "announce_host", "slowlog_len", "thread_number", "backend_conn_num", "active_redirection", "max_redirections", "password", "nosuch", ""] {
+        for val in ["0", "18446744073709551615", ""] {
+            let mut b = c(&["CONFIG", "SET", field, val]);
+            b.extend(c(&["CONFIG", "GET", field]));
+            b.extend(c(&["GET", "k1"]));
+            v.push((format!("CONFIG SET {} {:?} + CONFIG GET", field, val), b));
+        }
+    }
     v
 }
 
